@@ -309,6 +309,33 @@ func pass0() error {
 			}
 			return true
 		})
+		// selects nested in a loop of the same function
+		inLoop := map[ast.Stmt]bool{}
+		var markLoops func(n ast.Node, loop bool)
+		markLoops = func(n ast.Node, loop bool) {
+			ast.Inspect(n, func(m ast.Node) bool {
+				if m == nil || m == n {
+					return true
+				}
+				switch x := m.(type) {
+				case *ast.FuncLit:
+					markLoops(x.Body, false)
+					return false
+				case *ast.ForStmt:
+					markLoops(x.Body, true)
+					return false
+				case *ast.RangeStmt:
+					markLoops(x.Body, true)
+					return false
+				case *ast.SelectStmt:
+					if loop {
+						inLoop[x] = true
+					}
+				}
+				return true
+			})
+		}
+		markLoops(f, false)
 		ast.Inspect(f, func(n ast.Node) bool {
 			sel, ok := n.(*ast.SelectStmt)
 			if !ok {
@@ -349,6 +376,19 @@ func pass0() error {
 			var b strings.Builder
 			unb := fmt.Sprintf("simhook.Unblock(__simbt%d, %d);", l, l)
 			fmt.Fprintf(&b, "__simbt%d := simhook.Block(%d); ", l, l)
+			hasSend := false
+			for _, cc := range comm {
+				if _, ok := cc.Comm.(*ast.SendStmt); ok {
+					hasSend = true
+				}
+			}
+			if hasSend {
+				if inLoop[sel] {
+					warn("select with send clause inside a loop at %s: no panic guard", fset.Position(sel.Pos()))
+				} else {
+					fmt.Fprintf(&b, "defer simhook.Guard(__simbt%d, %d); ", l, l)
+				}
+			}
 			if !allTerm {
 				fmt.Fprintf(&b, "__sel%d: for { ", l)
 			}
@@ -803,7 +843,7 @@ func (c *fileCtx) processFile() {
 
 	handleStmt := func(st ast.Stmt, crit bool) {
 		// statement-level handling for a statement that sits directly in a block
-		if crit {
+		if crit && !isSimhookStmt(st) {
 			if _, isLabeled := st.(*ast.LabeledStmt); !isLabeled {
 				c.insert(st.Pos(), fmt.Sprintf("simhook.Y(%d);", c.label(st.Pos(), "stmt")))
 				stats.StmtYields++
@@ -859,9 +899,11 @@ func (c *fileCtx) processFile() {
 		// blocking operations in simple statements
 		switch x := st.(type) {
 		case *ast.SendStmt:
+			// a send can panic while blocked (channel closed by a peer): the
+			// Unblock is deferred inside a closure so that it always runs
 			l := c.label(st.Pos(), "send")
-			c.insert(st.Pos(), fmt.Sprintf("__simbt%d := simhook.Block(%d);", l, l))
-			c.insert(st.End(), fmt.Sprintf("; simhook.Unblock(__simbt%d, %d)", l, l))
+			c.insert(st.Pos(), fmt.Sprintf("func() { __simbt%d := simhook.Block(%d); defer simhook.Unblock(__simbt%d, %d); ", l, l, l, l))
+			c.insert(st.End(), " }()")
 			stats.Blocks++
 		case *ast.ExprStmt, *ast.AssignStmt, *ast.DeclStmt, *ast.IncDecStmt:
 			kind, rs := c.findBlocking(x)
@@ -876,6 +918,7 @@ func (c *fileCtx) processFile() {
 			c.insert(st.End(), fmt.Sprintf("; simhook.Unblock(__simbt%d, %d)", l, l))
 			stats.Blocks++
 			if rs != nil && len(rs.Args) == 1 {
+				c.insert(st.Pos(), fmt.Sprintf("defer simhook.Guard(__simbt%d, %d);", l, l))
 				c.insert(rs.Args[0].Pos(), "simhook.DetSelect(")
 				c.insert(rs.Args[0].End(), fmt.Sprintf(", %d)", l))
 				stats.ReflectSelects++
@@ -922,6 +965,12 @@ func (c *fileCtx) processFile() {
 			}
 			l := c.label(st.Pos(), "selectblock")
 			c.insert(st.Pos(), fmt.Sprintf("__simbt%d := simhook.Block(%d);", l, l))
+			for _, cl := range x.Body.List {
+				if _, ok := cl.(*ast.CommClause).Comm.(*ast.SendStmt); ok {
+					c.insert(st.Pos(), fmt.Sprintf("defer simhook.Guard(__simbt%d, %d);", l, l))
+					break
+				}
+			}
 			for _, cl := range x.Body.List {
 				cc := cl.(*ast.CommClause)
 				c.insert(cc.Colon+1, fmt.Sprintf(" simhook.Unblock(__simbt%d, %d);", l, l))
@@ -1099,7 +1148,7 @@ func (c *fileCtx) processFile() {
 			case *ast.CallExpr:
 				// sync.Once.Do
 				if sel, ok := x.Fun.(*ast.SelectorExpr); ok && len(x.Args) == 1 {
-					if recv, name, _, ok := syncMethod(info, sel); ok && recv == "Once" && name == "Do" && simpleExpr(sel.X) {
+					if recv, name, _, ok := syncMethod(info, sel); ok && recv == "Once" && name == "Do" && (simpleExpr(sel.X) || isPointer(info.TypeOf(sel.X))) {
 						amp := "&"
 						if isPointer(info.TypeOf(sel.X)) {
 							amp = ""
@@ -1156,6 +1205,30 @@ func (c *fileCtx) processFile() {
 }
 
 var hitFail = map[string]int{}
+
+// isSimhookStmt reports whether st is a statement generated by pass 0 (a call
+// into simhook): no yield may be placed in front of it, e.g. between a wake-up
+// and the Unblock that follows it.
+func isSimhookStmt(st ast.Stmt) bool {
+	var call *ast.CallExpr
+	switch x := st.(type) {
+	case *ast.ExprStmt:
+		call, _ = x.X.(*ast.CallExpr)
+	case *ast.AssignStmt:
+		if len(x.Rhs) == 1 {
+			call, _ = x.Rhs[0].(*ast.CallExpr)
+		}
+	}
+	if call == nil {
+		return false
+	}
+	sel, ok := call.Fun.(*ast.SelectorExpr)
+	if !ok {
+		return false
+	}
+	id, ok := sel.X.(*ast.Ident)
+	return ok && id.Name == "simhook"
+}
 
 func parenText(c *fileCtx, e ast.Expr) string {
 	return "(" + c.text(e) + ")"
